@@ -306,3 +306,371 @@ def relative_candidates(base, target):
         except Exception:  # noqa: BLE001
             pass
     return good
+
+
+# ---------------------------------------------------------------- Turtle / TriG: document ASTs, their meaning, and a randomised writer
+# node      ::= ("t", term) | ("anon", pol) | ("coll", [node, ...])
+# pol       ::= [(predicate_term, [node, ...]), ...]
+# statement ::= (subject_node, pol)          (pol may be empty only if the subject is an "anon" with a non-empty pol)
+# document  ::= [(graph_term | None, [statement, ...]), ...]     (Turtle: one block with graph None)
+NIL = ("u", RDF + "nil")
+FIRST, REST, TYPE = ("u", RDF + "first"), ("u", RDF + "rest"), ("u", RDF + "type")
+
+
+def eval_doc(blocks):
+    """-> set of quads (graph None = default graph); anonymous nodes get labels anonN / cellN in document order"""
+    out = set()
+    counter = [0]
+
+    def fresh(prefix):
+        counter[0] += 1
+        return ("b", "%s%d" % (prefix, counter[0]))
+
+    def node(n, g):
+        if n[0] == "t":
+            return n[1]
+        if n[0] == "raw":  # a token written verbatim, with the term it denotes
+            return n[2]
+        if n[0] == "anon":
+            b = fresh("anon")
+            pol(b, n[1], g)
+            return b
+        if n[0] == "coll":
+            if not n[1]:
+                return NIL
+            cells = [fresh("cell") for _ in n[1]]
+            for i, m in enumerate(n[1]):
+                out.add((cells[i], FIRST, node(m, g), g))
+                out.add((cells[i], REST, cells[i + 1] if i + 1 < len(cells) else NIL, g))
+            return cells[0]
+        raise ValueError(n)
+
+    def pol(s, pl, g):
+        for p, objs in pl:
+            for o in objs:
+                out.add((s, p, node(o, g), g))
+
+    for g, stmts in blocks:
+        for s, pl in stmts:
+            pol(node(s, g), pl, g)
+    return out
+
+
+_PN_LOCAL_ESC = "_~.-!$&'()*+,;=/?#@%"
+_RE_PN_CHARS_BASE = re.compile("[%s]" % _PN_CHARS_BASE)
+_RE_PN_CHARS = re.compile("[%s]" % _PN_CHARS.replace(":", ""))  # Turtle: ':' is not in PN_CHARS_U
+
+
+def pn_local(local, c):
+    """a PN_LOCAL spelling of the string, or None when there is none"""
+    out = []
+    n = len(local)
+    i = 0
+    while i < n:
+        ch = local[i]
+        first, last = i == 0, i == n - 1
+        if ch == "%":
+            if i + 2 < n + 0 and re.match(r"%[0-9A-Fa-f]{2}", local[i:i + 3]):
+                out.append(local[i:i + 3])  # PERCENT stands for itself
+                c.feat("pn-local-percent")
+                i += 3
+                continue
+            out.append("\\%")
+            c.feat("pn-local-esc")
+        elif ch == ":" or ch.isdigit() and ord(ch) < 128:
+            out.append(ch)
+        elif ch == "_":
+            out.append("\\_" if c.flag(4) else "_")
+        elif ch == ".":
+            if first or last or c.flag(3):
+                out.append("\\.")
+                c.feat("pn-local-esc")
+            else:
+                out.append(".")
+        elif ch == "-":
+            if first or c.flag(3):
+                out.append("\\-")
+                c.feat("pn-local-esc")
+            else:
+                out.append("-")
+        elif ch in _PN_LOCAL_ESC:
+            out.append("\\" + ch)
+            c.feat("pn-local-esc")
+        elif _RE_PN_CHARS_BASE.match(ch):
+            out.append(ch)
+        elif _RE_PN_CHARS.match(ch) and not first:
+            out.append(ch)
+        else:
+            return None
+        i += 1
+    return "".join(out)
+
+
+def split_points(iri):
+    pts = {m.end() for m in re.finditer(r"[#/:]", iri)}
+    return sorted(p for p in pts if 0 < p <= len(iri))
+
+
+_PREFIX_NAMES = ["", "ex", "a", "p1", "x-y", "x.y", "é", "Pre_fix", "rdfx"]
+
+
+class TurtleWriter:
+    def __init__(self, c, trig=False):
+        self.c = c
+        self.trig = trig
+        self.prefixes = {}  # ns -> name
+        self.base = None
+
+    # --- lexical pieces
+    def ws(self, must=False):
+        c = self.c
+        k = c.pick(10)
+        if k == 0:
+            c.feat("comment")
+            return " # comment ; . <x> \n"
+        if k == 1:
+            return "\n"
+        if k == 2:
+            return "\t"
+        if k == 3 and not must:
+            return ""
+        if k == 4:
+            return " \r\n  "
+        return " "
+
+    def iri(self, iri, allow_a=False):
+        c = self.c
+        if allow_a and iri == RDF + "type" and c.flag():
+            c.feat("a")
+            return "a"
+        opts = []
+        for ns, name in self.prefixes.items():
+            if iri.startswith(ns):
+                loc = pn_local(iri[len(ns):], c)
+                if loc is not None:
+                    opts.append(name + ":" + loc)
+        if self.base is not None:
+            for label, ref in relative_candidates(self.base, iri):
+                if not re.search(r'[\x00-\x20<>"{}|^`\\]', ref):
+                    opts.append(("rel", label, ref))
+        if opts and c.flag(4) is False:
+            o = c.choice(opts)
+            if isinstance(o, tuple):
+                c.feat("relative-iri:" + o[1])
+                return "<" + o[2] + ">"
+            c.feat("prefixed-name")
+            return o
+        s = nt_iri(iri, c)
+        return s
+
+    def string(self, s):
+        c = self.c
+        k = c.pick(4)
+        if k == 0:
+            return nt_string(s, c, '"')
+        if k == 1:
+            c.feat("single-quoted")
+            return nt_string(s, c, "'")
+        q = '"' if k == 2 else "'"
+        c.feat("long-string")
+        out = []
+        for i, ch in enumerate(s):
+            if ch == "\\":
+                out.append("\\\\")
+            elif ch == q:
+                nxt = s[i + 1] if i + 1 < len(s) else None
+                if nxt == q or nxt is None or c.flag(3):
+                    out.append("\\" + q)
+                else:
+                    out.append(q)
+            elif ch in "\n\r\t":
+                if c.flag(3):
+                    out.append(_ECHAR[ch])
+                else:
+                    c.feat("raw-newline-in-long-string")
+                    out.append(ch)
+            elif c.flag(10):
+                out.append(_uchar(ch, c))
+            else:
+                out.append(ch)
+        return q * 3 + "".join(out) + q * 3
+
+    def literal(self, t):
+        c = self.c
+        lex, dt, lang = t[1], t[2], t[3]
+        if lang:
+            return self.string(lex) + "@" + vary_case(lang, c)
+        if dt:
+            if c.flag():
+                if dt == XSD + "integer" and re.fullmatch(r"[+-]?[0-9]+", lex):
+                    c.feat("integer-shorthand")
+                    return lex
+                if dt == XSD + "decimal" and re.fullmatch(r"[+-]?[0-9]*\.[0-9]+", lex):
+                    c.feat("decimal-shorthand")
+                    return lex
+                if dt == XSD + "double" and re.fullmatch(r"[+-]?(?:[0-9]+\.[0-9]*[eE][+-]?[0-9]+|\.[0-9]+[eE][+-]?[0-9]+|[0-9]+[eE][+-]?[0-9]+)", lex):
+                    c.feat("double-shorthand")
+                    return lex
+                if dt == XSD + "boolean" and lex in ("true", "false"):
+                    c.feat("boolean-shorthand")
+                    return lex
+            return self.string(lex) + "^^" + self.iri(dt)
+        return self.string(lex)
+
+    def term(self, t, pred=False):
+        if t[0] == "u":
+            return self.iri(t[1], allow_a=pred)
+        if t[0] == "b":
+            return "_:" + t[1]
+        return self.literal(t)
+
+    def needs_sep(self, text):
+        """does the token need white space before a following '.', ';' or ','"""
+        return bool(re.search(r"[^>\"'\])]\Z", text)) or text in ("a", "true", "false") or text.endswith("\\'")
+
+    def node(self, n, pred=False):
+        c = self.c
+        if n[0] == "t":
+            return self.term(n[1], pred)
+        if n[0] == "raw":
+            c.feat("numeric-variant")
+            return n[1]
+        if n[0] == "anon":
+            if not n[1]:
+                c.feat("[]")
+                return "[" + c.choice(["", " ", "\n"]) + "]"
+            c.feat("[ pol ]")
+            return "[" + self.ws() + self.pol(n[1]) + self.ws() + "]"
+        if n[0] == "coll":
+            c.feat("collection" if n[1] else "()")
+            return "(" + self.ws() + "".join(self.node(m) + self.ws(must=True) for m in n[1]) + ")"
+        raise ValueError(n)
+
+    def pol(self, pl):
+        c = self.c
+        parts = []
+        for p, objs in pl:
+            objtxt = []
+            for o in objs:
+                objtxt.append(self.node(o))
+            if len(objs) > 1:
+                c.feat(",")
+            seg = self.term(p, pred=True) + self.ws(must=True) + (self.ws() + "," + self.ws()).join(
+                x + (" " if self.needs_sep(x) else "") for x in objtxt)
+            parts.append(seg)
+        if len(parts) > 1:
+            c.feat(";")
+        txt = ""
+        for i, seg in enumerate(parts):
+            txt += seg
+            if i + 1 < len(parts):
+                txt += self.ws() + ";" + (self.ws() + ";" if c.flag(6) and not c.feat("repeated-;") else "") + self.ws()
+        if parts and c.flag(5):
+            c.feat("trailing-;")
+            txt += self.ws() + ";"
+        return txt
+
+    def statement(self, s, pl, final_dot=True):
+        subj = self.node(s)
+        if pl:
+            body = subj + self.ws(must=True) + self.pol(pl)
+        else:
+            body = subj
+        if final_dot:
+            body += (" " if self.needs_sep(body) else self.ws()) + "."
+        return body
+
+    def directives(self, iris):
+        """choose base and prefixes from the IRIs of the document"""
+        c = self.c
+        out = []
+        hier = [i for i in iris if re.match(r"^(https?|file)://", i)]
+        if hier and c.flag(3):
+            b = c.choice(hier)
+            # a base may carry a fragment / query of its own
+            self.base = b
+            c.feat("base")
+            out.append(("@base <%s> ." if c.flag() else c.choice(["BASE", "base", "Base"]) + " <%s>") % b)
+        used_names = set()
+        for i in iris:
+            pts = split_points(i)
+            if not pts or not c.flag(2):
+                continue
+            ns = i[:pts[-1]] if c.flag(4) is False else i[:c.choice(pts)]
+            if ns in self.prefixes or re.search(r'[\x00-\x20<>"{}|^`\\]', ns):
+                continue
+            name = c.choice([n for n in _PREFIX_NAMES if n not in used_names] or [None])
+            if name is None:
+                break
+            used_names.add(name)
+            self.prefixes[ns] = name
+            if c.flag():
+                out.append("@prefix %s:%s<%s>%s." % (name, c.choice([" ", "", "\t"]), ns, c.choice([" ", ""])))
+                c.feat("@prefix")
+            else:
+                out.append("%s %s: <%s>" % (c.choice(["PREFIX", "prefix", "PreFix"]), name, ns))
+                c.feat("PREFIX")
+        return out
+
+    def document(self, blocks):
+        c = self.c
+        iris = []
+
+        def collect(n):
+            if n[0] == "raw":
+                return
+            if n[0] == "t":
+                t = n[1]
+                if t[0] == "u":
+                    iris.append(t[1])
+                elif t[0] == "l" and t[2]:
+                    iris.append(t[2])
+            elif n[0] == "anon":
+                for p, objs in n[1]:
+                    iris.append(p[1])
+                    for o in objs:
+                        collect(o)
+            else:
+                for m in n[1]:
+                    collect(m)
+        for g, stmts in blocks:
+            if g is not None and g[0] == "u":
+                iris.append(g[1])
+            for s, pl in stmts:
+                collect(s)
+                for p, objs in pl:
+                    iris.append(p[1])
+                    for o in objs:
+                        collect(o)
+        iris = list(dict.fromkeys(iris))
+        lines = self.directives(iris)
+        for g, stmts in blocks:
+            if not self.trig:
+                for s, pl in stmts:
+                    lines.append(self.statement(s, pl))
+                continue
+            if g is None and c.flag():
+                c.feat("trig-bare-triples")
+                for s, pl in stmts:
+                    lines.append(self.statement(s, pl))
+                continue
+            inner = []
+            for i, (s, pl) in enumerate(stmts):
+                last = i == len(stmts) - 1
+                nodot = last and c.flag()
+                if nodot:
+                    c.feat("trig-no-final-dot")
+                inner.append(self.statement(s, pl, final_dot=not nodot))
+            if g is None:
+                c.feat("trig-default-braces")
+                head = ""
+            else:
+                gt_ = self.term(g)
+                if c.flag():
+                    c.feat("GRAPH-keyword")
+                    head = c.choice(["GRAPH", "graph", "Graph"]) + " " + gt_ + self.ws()
+                else:
+                    head = gt_ + self.ws(must=not gt_.endswith(">"))
+            lines.append(head + "{" + self.ws() + (self.ws(must=True)).join(inner) + self.ws(must=True) + "}")
+        sep = lambda: c.choice(["\n", "\n", " ", "\n\n", "\r\n", "\n# c\n"])  # noqa: E731
+        return "".join(x + sep() for x in lines)
